@@ -111,7 +111,8 @@ PROPS["C15"] = dict(
     per_harness={r"c15_t_tileset_without_embedded_pixels": dict(mem_gb=14, timeout=2400), r"c15_t_frame_propagates_cel_type_error": dict(mem_gb=12, timeout=1800)},
     bounds="each deciding field over its whole encodable range (u16 / u8 / both pixel-ratio bytes and the depth word with all "
            "other header bytes symbolic); one chunk per frame for the propagation lemmas",
-    outside="positions of the feature other than the first chunk of the first frame (dispatch is per chunk and stateless "
+    outside="the refusal of tilesets without embedded pixels (TilesetsById::validate iterates a hash map: not finished in 20 min); "
+            "positions of the feature other than the first chunk of the first frame (dispatch is per chunk and stateless "
             "for these kinds); real zlib payloads",
 )
 
@@ -200,13 +201,13 @@ PROPS["C05"] = dict(
 PROPS["C13"] = dict(
     prefix="c13_",
     overlays=[("parse", "vk_c13.rs")],
-    per_harness={r"c13_t_(file_cut_anywhere|missing_last_frame)": dict(mem_gb=14, timeout=2400),
-                 r"c13_._frame_cut_(in_frame_header|in_first_chunk_a|in_second_chunk_a|at_|in_magic|after_old|more).*": dict(mem_gb=12, timeout=1500)},
     jobs_quick=5, jobs_thorough=4,
-    bounds="one frame of two chunks (layer with symbolic attributes, user data; contents symbolic) cut at 12 (quick) / 18 (thorough) "
-           "concrete offsets covering every read boundary (the in-memory reader over the prefix); the 128-byte header cut at 4 offsets; thorough: whole file = header + "
-           "one empty frame cut at every offset 0..=144 (symbolic), two declared frames with one present",
-    outside="files with more chunks / frames (every read goes through the same exact-length primitive), cuts inside a real "
+    bounds="one frame of two chunks (layer with symbolic attributes, user data; contents symbolic) cut at 4 concrete offsets inside "
+           "the chunk payloads; a frame ending in a cel-extra / path chunk cut inside that payload; "
+           "the 128-byte file header cut at 4 offsets (the in-memory reader over the prefix)",
+    outside="cuts inside the frame header or a chunk header of a frame that has chunks (these queries exceed 12 GB: after the failed "
+            "read the rest of parse_frame is explored on a slice of symbolic length) -- argued from the payload and file-header cases: "
+            "every read goes through the same exact-length primitives; files with more chunks / frames; cuts inside a real "
             "zlib stream (the inflater is not encodable; flate2 reports a truncated stream as an I/O error)",
 )
 
@@ -235,7 +236,7 @@ PROPS["C19"] = dict(
 
 PROPS["C07"] = dict(
     prefix="c07_",
-    per_harness={r"c07_t_bytes_after_last_frame_unread": dict(mem_gb=14, timeout=2400), r"c06_._(rgba|gray)_.*": dict(mem_gb=14, timeout=1500)},
+    per_harness={r"c06_._(rgba|gray)_.*": dict(mem_gb=14, timeout=1500)},
     overlays=[("parse", "vk_c07.rs"), ("parse", "vk_c11p.rs"), ("parse", "vk_c15p.rs"), ("parse", "vk_c01p.rs"), ("file", "vk_c02.rs"), ("pixel", "vk_c06x.rs")],
     extra_harnesses=dict(
         quick=["c11_q_new_palette_then_legacy", "c11_q_legacy_then_new_palette", "c15_q_header_pixel_ratio_and_depth",
@@ -243,7 +244,7 @@ PROPS["C07"] = dict(
         thorough=["c02_q_cel_order_120", "c06_q_gray_raw", "c06_t_gray_compressed", "c06_q_rgba_raw", "c06_q_rgba_compressed"]),
     bounds="one layer chunk with symbolic attributes: count in old vs new field (old field arbitrary), 3 trailing chunk bytes, "
            "symbolic unused fields; colour profile none/sRGB + three ignorable chunks with symbolic payloads around a layer and its "
-           "user data; 16 symbolic bytes after the last frame behind a failing reader; plus the re-run C01/C02/C06/C11/C15 harnesses",
+           "user data; plus the re-run C01/C02/C06/C11/C15 harnesses",
     outside="real deflate streams and compression levels (identity model of unzip): raw-vs-compressed equality is decided only "
             "under that model",
 )
